@@ -63,7 +63,7 @@ impl<'a> Sink<'a> {
     }
     pub fn run(&mut self, c: Case) {
         self.ctx.describe(&format!("{}|{}", crate::common::hex(&c.bytes), c.tag));
-        let r = self.w.run(&c);
+        let (r, more) = self.w.run_with_histories(&c);
         let st = &mut self.stats;
         st.cases += 1;
         *st.per_tag.entry(c.tag.clone()).or_insert(0) += 1;
@@ -136,8 +136,23 @@ impl<'a> Sink<'a> {
             }
         }
         let mut any = false;
+        // control transfers and stack instructions once more on machines that have a history
+        // behind them: what the guest cannot see (call bookkeeping, trace, counters) must not
+        // change what it can. Only differences the new machine did not show are recorded.
+        let mut results = more;
+        if let Some((key, p)) = self.w.history_problem(&r, &c) {
+            self.findings.add(
+                &key,
+                || format!("a straight-line history of calls and returns did not run: {p}"),
+                || json!({"engine": "natdiff", "case": c.to_json()}),
+            );
+            any = true;
+        }
+        self.stats.aged_runs += results.len() as u64;
+        results.insert(0, r);
+        for r in &results {
         for d in &r.diffs {
-            if !(self.filter)(&r, d) {
+            if !(self.filter)(r, d) {
                 continue;
             }
             any = true;
@@ -158,6 +173,7 @@ impl<'a> Sink<'a> {
                 self.ctx.emit(&v);
                 self.ctx.flush();
             }
+        }
         }
         if any {
             self.stats.cases_with_diff += 1;
@@ -1092,8 +1108,14 @@ pub fn s7_control(p: &Plan, sink: &mut Sink) {
                         s.flags = f;
                         let mut bytes = t.bytes.clone();
                         let mut pokes = vec![];
+                        if matches!(i.segment_prefix(), Register::FS | Register::GS) {
+                            // small bases: the slot without the base lies in the same page and
+                            // holds something else, so a dropped override shows in RIP
+                            s.fs = 0x100;
+                            s.gs = 0x180;
+                        }
                         if has_mem(&i) {
-                            match place(&bytes, IP, DEFAULT_TARGET, 0x10, 0x10, 0, &mut s.gpr, 0, 0) {
+                            match place(&bytes, IP, DEFAULT_TARGET, 0x10, 0x10, 0, &mut s.gpr, s.fs, s.gs) {
                                 Some(pl) => {
                                     bytes = pl.bytes;
                                     pokes.push((pl.ea, tg.to_le_bytes().to_vec()));
@@ -1164,6 +1186,19 @@ fn extra_control_templates(c: &Census) -> Vec<Tmpl> {
     }
     for (k, t) in c.by_id.iter() {
         if (k.starts_with("Call_rm64|") || k.starts_with("Jmp_rm64|")) && (k.contains("|RSP,") || k.contains("|R12,")) {
+            out.push(t.clone());
+        }
+    }
+    // FS / GS overrides (run with non-zero segment bases): the target is fetched from base + EA
+    for t in c.by_sig.values() {
+        if !matches!(t.code, Code::Jmp_rm64 | Code::Call_rm64) || t.form != "mem" {
+            continue;
+        }
+        if (t.sig.contains("|P7|") || t.sig.contains("|P8|"))
+            && t.sig.contains("|X0|")
+            && (t.sig.contains("gFS") || t.sig.contains("gGS"))
+            && (t.sig.contains("b64Ai-") || t.sig.contains("b-i-"))
+        {
             out.push(t.clone());
         }
     }
@@ -1616,12 +1651,14 @@ pub fn confirm_nat_batch(ws: &[Value]) -> Vec<Result<Vec<String>, String>> {
             for (n, c) in cases.iter().enumerate() {
                 if let Some(case) = c {
                     ctx.beat();
-                    let r = w.run(case);
-                    let keys: Vec<String> = r
-                        .diffs
-                        .iter()
-                        .map(|d| format!("{}|{}|{}", r.subject, d.observable, r.class))
-                        .collect();
+                    let (r, more) = w.run_with_histories(case);
+                    let mut keys: Vec<String> = vec![];
+                    if let Some((key, _)) = w.history_problem(&r, case) {
+                        keys.push(key);
+                    }
+                    for r in std::iter::once(&r).chain(more.iter()) {
+                        keys.extend(r.diffs.iter().map(|d| format!("{}|{}|{}", r.subject, d.observable, r.class)));
+                    }
                     ctx.emit(&json!({"n": n, "keys": keys}));
                 }
             }
@@ -1682,6 +1719,7 @@ pub fn nat_evidence(run: &mut Run, census: &Census, out: &NatOutcome, sweeps: &[
     run.cov("native_noncanonical_target_dropped", json!(s.native_noncanonical));
     run.cov("outcome_mismatch_cases", json!(s.outcome_mismatch));
     run.cov("cases_with_relevant_difference", json!(s.cases_with_diff));
+    run.cov("emulator_reruns_on_machines_with_history", json!(s.aged_runs));
     run.cov("unplaceable_shapes_skipped", json!(out.unplaceable));
     run.cov("native_single_steps", json!(s.native_steps));
     run.cov("forms_seen", json!(s.seen_forms.len()));
